@@ -495,8 +495,32 @@ func (mf *MultiFileAppendable) SetOffset(off int64) error {
 			return err
 		}
 
+		lastAppID := mf.currAppID
+
 		mf.currAppID = appID
 		mf.currApp = app
+
+		// the chunks that follow are no longer part of the log: remove their files, otherwise they
+		// are still readable and the last of them becomes the current chunk at the next open
+		for id := appID + 1; id <= lastAppID; id++ {
+			app, err := mf.appendables.Pop(id)
+			if err == nil {
+				err = app.Close()
+				if err != nil {
+					return err
+				}
+			}
+
+			err = os.Remove(filepath.Join(mf.path, appendableName(id, mf.fileExt)))
+			if err != nil && !os.IsNotExist(err) {
+				return err
+			}
+		}
+
+		err = fileutils.SyncDir(mf.path)
+		if err != nil {
+			return err
+		}
 	}
 
 	return mf.currApp.SetOffset(off % int64(mf.fileSize))
